@@ -93,12 +93,15 @@ TIERS = {
         "quick": {
             "design": [{"NRxns": 3, "BPal": "f4", "OPal": "first", "Canon": True, "Thm": {"loop"}}],
             "gens": [("cycle2", {"Topo": "cyc2", "NMets": 2, "NRxns": 4, "BPal": "f3", "OPal": "unit"}, 1),
+                     ("cycle2pinned", {"Topo": "cyc2", "NMets": 2, "NRxns": 4, "BPal": "p3", "OPal": "unit"}, 1),
                      ("walk", {"Mode": "walk", "NMets": 3, "NRxns": 6, "BPal": "f7", "NWalks": 300, "Depth": 6}, 1)],
         },
         "thorough": {
             "design": [{"NRxns": 3, "BPal": "f7", "OPal": "unit", "Canon": True, "Thm": {"loop"}}],
             "gens": [("cycle2", {"Topo": "cyc2", "NMets": 2, "NRxns": 4, "BPal": "f7", "OPal": "unit"}, 2),
                      ("cycle3", {"Topo": "cyc3", "NMets": 3, "NRxns": 5, "BPal": "f4", "OPal": "unit"}, 1),
+                     ("cycle2pinned", {"Topo": "cyc2", "NMets": 2, "NRxns": 4, "BPal": "p5", "OPal": "unit"}, 1),
+                     ("cycle3pinned", {"Topo": "cyc3", "NMets": 3, "NRxns": 5, "BPal": "p3", "OPal": "unit"}, 1),
                      ("walk", {"Mode": "walk", "NMets": 4, "NRxns": 6, "BPal": "f7", "NWalks": 5000, "Depth": 8}, 1)],
         },
     },
@@ -381,6 +384,20 @@ class Driver:
             except Exception as e:
                 return {"raises": type(e).__name__, "sol": NO_DIGEST}
             return {"raises": "none", "sol": d}
+        if op == "add_loopless_ko":
+            from cobra.flux_analysis.loopless import add_loopless
+            try:
+                with m:
+                    r = self.rx[s["r"] - 1]
+                    orig = r.bounds
+                    r.bounds = (0.0, 0.0)
+                    add_loopless(m)
+                    r.bounds = orig
+                    sol = m.optimize()
+                    d = self.digest(sol)
+            except Exception as e:
+                return {"raises": type(e).__name__, "sol": NO_DIGEST}
+            return {"raises": "none", "sol": d}
         raise C.Machinery("unknown step %r" % (op,))
 
     def pos(self, rid):
@@ -581,13 +598,13 @@ REQUIRED_OPS = {
     "C04": ["optimize", "slim", "access", "setbounds", "setobj", "setdir"],
     "C05": ["fva"],
     "C19": ["blocked", "fastcc"],
-    "C17": ["loopless_solution", "add_loopless"],
+    "C17": ["loopless_solution", "add_loopless", "add_loopless_ko"],
 }
 
 
 def _palettes_for(bi, k, beh):
     # optlang's glpk_exact interface refuses integer variables: add_loopless needs the MILP-capable interface
-    pals = [p for p in PALETTES if p["solver"] == "glpk"] if any(s["op"] == "add_loopless" for s in beh["steps"]) else PALETTES
+    pals = [p for p in PALETTES if p["solver"] == "glpk"] if any(s["op"].startswith("add_loopless") for s in beh["steps"]) else PALETTES
     return [pals[(bi + j) % len(pals)] for j in range(k)]
 
 
